@@ -96,6 +96,17 @@ def pairOf : SExp → Option (Nat × Nat)
   | .list [a, b] => do pure ((← toNat? a), (← toNat? b))
   | _ => none
 
+/-- one entry of a flattened domain sort key: `(N int)` / `(S percent-encoded str)` -/
+def atomOf : SExp → Option KeyAtom
+  | .list [.atom "N", v] => (toInt? v).map .n
+  | .list [.atom "S", .atom v] => some (.s (SExp.decode v))
+  | .list [.atom "S"] => some (.s "")
+  | _ => none
+
+def atomS : KeyAtom → SExp
+  | .n v => .list [.atom "N", .atom (toString v)]
+  | .s v => if v = "" then .list [.atom "S"] else .list [.atom "S", .atom (SExp.encode v)]
+
 mutual
 def ofSExp : SExp → Option Expr
   | .list [.atom "I", v] => (toInt? v).map .int
@@ -105,6 +116,9 @@ def ofSExp : SExp → Option Expr
   | .list (.atom "M" :: is) => (is.mapM idxOf).map .mi
   | .list [.atom "T", .atom cls, .atom key, sh, cnt, part] => do
       pure (.term { cls := cls, key := SExp.decode key, shape := (← natList? sh), count := (← toInt? cnt), part := (← toInt? part) })
+  | .list [.atom "T", .atom cls, .atom key, sh, cnt, part, .list (.atom "K" :: dom)] => do
+      pure (.term { cls := cls, key := SExp.decode key, shape := (← natList? sh), count := (← toInt? cnt), part := (← toInt? part),
+                    dom := (← dom.mapM atomOf) })
   | .list (.atom "O" :: .atom name :: aux :: args) => do
       pure (.op (Op.ofName name) (← natList? aux) (← ofSExpL args))
   | _ => none
@@ -125,7 +139,8 @@ def toSExp : Expr → SExp
   | .cplx a b c d => .list [.atom "C", .atom (toString a), .atom (toString b), .atom (toString c), .atom (toString d)]
   | .zero sh fi => .list [.atom "Z", natsS sh, .list (fi.map fun p => .list [.atom (toString p.1), .atom (toString p.2)])]
   | .mi is => .list (.atom "M" :: is.map idxS)
-  | .term d => .list [.atom "T", .atom d.cls, .atom (SExp.encode d.key), natsS d.shape, .atom (toString d.count), .atom (toString d.part)]
+  | .term d => .list ([.atom "T", .atom d.cls, .atom (SExp.encode d.key), natsS d.shape, .atom (toString d.count), .atom (toString d.part)]
+      ++ (if d.dom.isEmpty then [] else [.list (.atom "K" :: d.dom.map atomS)]))
   | .op k aux args => .list (.atom "O" :: .atom k.name :: natsS aux :: toSExpL args)
 def toSExpL : List Expr → List SExp
   | [] => []
